@@ -612,6 +612,8 @@ class FormatChecker:
 
     def on_enter(self, ast, vals):
         self.dirty = False
+        self.last = {}          # id(node) -> value it last evaluated to in this run
+        self.births = {}        # id(value) -> (value, op): a -0 produced by a product / negation none of whose operands was -0
 
     def on_bind(self, stmt, v):
         pass
@@ -641,8 +643,24 @@ class FormatChecker:
         flags = [self.has_neg_zero(self.fa.by_expr.get(o)) for o in ops]
         return bool(flags) and all(f is False for f in flags)
 
+    @staticmethod
+    def _is_neg_zero(v):
+        return getattr(v, 's', False) is True and not getattr(v, 'isnan', False) and not getattr(v, 'isinf', False) and getattr(v, 'c', 1) == 0
+
     def on_expr(self, e, v):
         from fpy2.number.context.real import RealFormat
+        # provenance of negative zeros: the sign rule of an (exact or rounded) product / negation makes a -0 out of operands
+        # that are not -0 (F46: the abstract product / negation has a -0 only if an operand format has one).  The value object
+        # keeps its identity through assignments, phis and variable reads, so a later witness can name where its -0 was born
+        # even when the format table no longer shows it (by_expr keeps the view of the last analysed loop iteration only).
+        self.last[id(e)] = v
+        if self._is_neg_zero(v):
+            cls = type(e).__name__
+            if cls in ('Mul', 'Neg'):
+                ops = [getattr(e, a) for a in ('arg', 'first', 'second') if hasattr(e, a)]
+                vals = [self.last.get(id(o), self) for o in ops]
+                if ops and all(x is not self and not self._is_neg_zero(x) for x in vals):
+                    self.births[id(v)] = (v, cls)
         if self.dirty:
             # a value outside its format was already observed in this run: everything downstream is a consequence
             return
@@ -666,11 +684,14 @@ class FormatChecker:
                 text = repr(e)[:100]
             nv = norm(v)
             negz = nv[0] == 'n' and len(nv) == 3 and nv[2] == 0 and nv[1] is True
+            born = self.births.get(id(v)) if negz else None
             self.found.append({'property': PROP, 'part': 'trace', 'problem': 'a run-time value is outside the format inferred for its expression',
                                'expression': text[:200], 'value': show(nv), 'inferred': str(b)[:300], 'args': self.args_repr, 'pinned': self.pin,
                                'source': self.source,
-                               'mechanism': {'part': 'trace', 'kind': 'neg_zero' if negz else 'value', 'node': type(e).__name__, 'op': type(e).__name__,
-                                             'operands_lack_neg_zero': bool(negz and self.operands_lack_neg_zero(e))}})
+                               'mechanism': {'part': 'trace', 'kind': 'neg_zero' if negz else 'value', 'node': type(e).__name__,
+                                             'op': born[1] if born else type(e).__name__,
+                                             'operands_lack_neg_zero': bool(negz and (born is not None or self.operands_lack_neg_zero(e))),
+                                             'neg_zero_born_at': born[1] if born else None}})
 
 
 def format_members(ctx, fp, cap=40):
@@ -698,6 +719,9 @@ def format_members(ctx, fp, cap=40):
 
 
 DIRECTED = [
+    # thorough seed 0: a -0 born of (+0) * (negative) in the first analysed iteration of a loop of known length reaches a variable
+    # read whose format was recorded in the last iteration (F46 by provenance)
+    'for i1 in range(len(xs)):\n        v2 = ((-2.5 if i1 < y else y) * (x * i1))\n    with fp.FP16:\n        v3 = 7\n        if v3 != (y * v3):\n            k4 = 0\n            while k4 < 3:\n                y *= 0\n                with fp.INTEGER:\n                    k4 = k4 + 1\n        else:\n            with U4:\n                v3 *= x\n                x += (y * x)\n        v5 = fp.round(fp.round(v3))\n    for i6 in range(2):\n        x += fp.fma(2, i6, i6)\n    x = fp.trunc(abs(v3))\n    for i7 in range(2):\n        with Q2:\n            if (v5 + -1) == -2.5:\n                y += (2 + y)\n            else:\n                v3 += min(y, 0.5)\n                v5 *= (v3 + -1)\n    return min((v3 + y), v3)',
     'return (min(4, y), max(-7, x), min(x, y, 2), max(x, 2), min(x, -0.0), max(y, 0))',
     'with I8:\n        a = abs(x)\n        b = x * 3\n        c = -x\n    with U4:\n        d = x + y\n    return (a, b, c, d)',
     'a = x * -0.0\n    b = x * 0\n    c = (x - x) * y\n    return (a, b, c, -a, abs(c))',
